@@ -1407,6 +1407,41 @@ Proof.
   - intros l s. reflexivity.
 Qed.
 
+(* Workflow.mark_step_pending and Executor._reset_step_to_pending are translated statement by statement
+   (gen_noop.py interprets the functions; a behaviour-preserving rewrite gives the same tables): the effects per
+   old state / the effects of the one transaction are those of the model. *)
+Definition msp_effects (old : sstate) : list N :=
+  match old with
+  | SRunning | SChecking => []
+  | SPending => [1]
+  | SSucceeded | SFailed => [1; 2]
+  end.
+
+Lemma mark_step_pending_tie :
+  gen_mark_step_pending_table =
+  map (fun x => (sstate_code x, msp_effects x)) [SPending; SRunning; SSucceeded; SFailed; SChecking] /\
+  (forall fuel l s old, sstate_of l s = Some old ->
+     mark_step_pending_f (S fuel) l s =
+     match msp_effects old with
+     | [] => Ok s
+     | [_] => set_sstate l SPending false s
+     | _ => do s1 <- set_sstate l SPending false s;
+            foldM (fun s f => match fstate_of f s with
+                              | Some FBuilt => mark_file_outdated_f fuel f s
+                              | _ => Ok s end) (file_sinks_of_step l s1) s1
+     end).
+Proof.
+  split; [reflexivity|]. intros fuel l s old H. cbn [mark_step_pending_f]. rewrite H.
+  destruct old; cbn [msp_effects]; try reflexivity.
+  destruct (set_sstate l SPending false s); reflexivity.
+Qed.
+
+Lemma reset_to_pending_tie :
+  gen_reset_to_pending_effects = [1; 2; 3] /\
+  (forall l s, step_op (OpResetToPending l) s =
+               (do s1 <- reset_for_rerun l s; set_sstate l SPending false (delete_hash l s1))).
+Proof. split; [reflexivity|]. intros l s. reflexivity. Qed.
+
 (* After a restart every tracked variable of every attached step has its current value recorded:
    rescan_env_vars writes back EVERY row that it found changed (several variables of one step
    included), and an unchanged row of an attached step already holds the current value. *)
